@@ -181,6 +181,9 @@ def gen_case(seed, i):
             ops.append({"op": "newcell"})
         elif k < .14:
             ops.append({"op": "clearfailed"})
+        if ops and r.random() < .15:
+            # the user deletes a name between two calls (`del x`), same cell or not
+            ops.append({"op": "del", "lvl": r.randrange(nlev), "key": r.choice(TOPS + ALIAS + ATTR)})
         if r.random() < (.12 if boundary else .04):
             ops.append({"op": "call", "code": r.choice(BAD_CODE)})
         elif ops and r.random() < .2 and any(o["op"] == "call" for o in ops):
@@ -373,6 +376,8 @@ def child_main(case, root):
             holder["cell"] = {}
         elif o["op"] == "clearfailed":
             A.clear_failed_imports_cache()
+        elif o["op"] == "del":
+            nss[o["lvl"]].pop(o["key"], None)
         else:
             code = o["code"]
             ids = [(id(ns), {k: id(v) for k, v in ns.items()}) for ns in nss]
@@ -572,12 +577,14 @@ def model_expr(case, im, drop_empty=False):
     ops = []
     for o, st in zip(case["ops"], im["steps"]):
         if o["op"] == "newcell":
-            ops.append("ONewCell")
+            ops.append("(WOp ONewCell)")
         elif o["op"] == "clearfailed":
-            ops.append("OClearFailed")
+            ops.append("(WOp OClearFailed)")
+        elif o["op"] == "del":
+            ops.append("(WDel %s %s)" % (cm.cnat(o["lvl"] + 2), c_dotted(nm, o["key"])))
         else:
             ms = st.get("missing")
-            ops.append("(OCall %s)" % cm.copt(ms, lambda l: cm.clist([c_dotted(nm, m) for m in l])))
+            ops.append("(WOp (OCall %s))" % cm.copt(ms, lambda l: cm.clist([c_dotted(nm, m) for m in l])))
     expr = "run_seq %s %s %s %s %s [] [] %s %s" % (
         c_mods(nm, case["mods"]),
         cm.clist([c_imp(nm, e) for e in im["known"]]),
@@ -701,6 +708,12 @@ def is_f07a(case, step):
     return any(("%s.%s" % (d, a)) in mods for d, m in mods.items() for a in m["attrs"])
 
 
+def has_dotted_key(case, prev):
+    """classifier of F07b (outside the hypothesis plain_keys of C07_success_resolves_partial):
+    some namespace of the stack has a key that is not a plain identifier"""
+    return any("." in k for ns in prev["nss"] for k in ns)
+
+
 def is_rebind_same(case, step, prev):
     """classifier of the 'same object re-bound at the last level' finding: the added key is bound,
     to the identical object, in an earlier namespace"""
@@ -775,9 +788,14 @@ def oracle(ctx, prop, case, im):
                         bad.append(("failure_atomic", "call %d: %r raised but is not in _IMPORT_FAILED" % (k, stmt)))
         if prop == "C07" and chains is not None:
             if st["r"] is True and st["nameerror"]:
-                bad.append(("success_resolves", "call %d: auto_import(%r) returned True but executing it raises NameError: %s" % (k, code, st["nameerror"])))
+                if has_dotted_key(case, prev):
+                    ctx.known_hit("F07b", "a namespace holding a dotted key 'a.b' makes a.b 'not need import' while a is unbound: True result, then NameError")
+                else:
+                    bad.append(("success_resolves", "call %d: auto_import(%r) returned True but executing it raises NameError: %s" % (k, code, st["nameerror"])))
             if st["r"] is True and st["missing_after"]:
-                if is_f07a(case, st) and not isinstance(st["missing_after"], str):
+                if has_dotted_key(case, prev):
+                    pass
+                elif is_f07a(case, st) and not isinstance(st["missing_after"], str):
                     ctx.known_hit("F07a", "after a True result find_missing_imports(code) is not empty: a value attribute was replaced by the same-named submodule during the call")
                 else:
                     bad.append(("success_resolves", "call %d: auto_import(%r) returned True but afterwards %r still need import" % (k, code, st["missing_after"])))
